@@ -333,35 +333,29 @@ Proof.
 Qed.
 
 (* ------------------------------------------------------------------------------------------------ the Python stack *)
-(* With the default limits (context depth 30, block nesting 30) and the frame costs measured on CPython, a template that
-   includes itself from inside 15 nested if blocks -- half of what the nesting limit allows -- ends, in the model, in
-   ContextDepthError, but only after more frames than the interpreter's recursion limit provides. *)
-Theorem within_stack_refuted :
-  exists d, d <= 30 /\
-    (exists o, render_template false 30 cpython_sync (self_family KInclude d 1) (fuel_bound 30 (self_family KInclude d 1)) 0 = Some o
-               /\ raised o = Some EContextDepth) /\
-    recursion_limit < frames_needed cpython_sync 30 KInclude d.
+(* A template that includes or renders itself from inside any number of nested blocks ends in ContextDepthError in strict
+   mode whatever the size of the Python stack: either the depth limit is reached first, or the overflow is converted. *)
+Theorem within_stack convert_is_on stack lim cs k d :
+  convert_is_on = true -> self_outcome convert_is_on stack lim cs k d = TErr EContextDepth.
 Proof.
-  exists 15. split; [lia|]. split.
-  - apply (self_recursion_cut 30 cpython_sync KInclude 15 0).
-  - vm_compute. lia.
+  intros ->. unfold self_outcome. destruct (Nat.ltb stack (frames_needed cs lim k d)); [reflexivity|].
+  destruct (self_recursion_cut lim cs k d 0) as (o & -> & ->). reflexivity.
 Qed.
 
-Theorem within_stack_refuted_render :
-  exists d, d <= 30 /\ recursion_limit < frames_needed cpython_sync 30 KRender d.
-Proof. exists 6. split; [lia|]. vm_compute. lia. Qed.
+Theorem within_stack_on stack lim cs k d : self_outcome true stack lim cs k d = TErr EContextDepth.
+Proof. apply within_stack. reflexivity. Qed.
 
-(* up to these block depths the frames stay below the recursion limit (the partial statement that does hold, for the measured constants) *)
-Theorem within_stack_partial :
-  (forall d, d <= 13 -> frames_needed cpython_sync 30 KInclude d <= recursion_limit - 60) /\
-  (forall d, d <= 5 -> frames_needed cpython_sync 30 KRender d <= recursion_limit - 60).
-Proof.
-  split; intros d Hd.
-  - assert (H : forallb (fun d => Nat.leb (frames_needed cpython_sync 30 KInclude d) (recursion_limit - 60)) (seq 0 14) = true) by (vm_compute; reflexivity).
-    rewrite forallb_forall in H. apply Nat.leb_le. apply H. apply in_seq. lia.
-  - assert (H : forallb (fun d => Nat.leb (frames_needed cpython_sync 30 KRender d) (recursion_limit - 60)) (seq 0 6) = true) by (vm_compute; reflexivity).
-    rewrite forallb_forall in H. apply Nat.leb_le. apply H. apply in_seq. lia.
-Qed.
+(* Before the repair: with the default limits (context depth 30, block nesting 30) and the frame costs measured on CPython,
+   a template that includes itself from inside 15 nested if blocks -- half of what the nesting limit allows -- needs more
+   frames than the recursion limit provides before the depth limit is reached, and the RecursionError escaped. *)
+Theorem within_stack_old_refuted :
+  exists d, d <= 30 /\ recursion_limit < frames_needed cpython_sync 30 KInclude d /\
+            self_outcome_old recursion_limit 30 cpython_sync KInclude d = TErr ERecursionError.
+Proof. exists 15. split; [lia|]. split; [vm_compute; lia|vm_compute; reflexivity]. Qed.
+
+Theorem within_stack_old_refuted_render :
+  exists d, d <= 30 /\ self_outcome_old recursion_limit 30 cpython_sync KRender d = TErr ERecursionError.
+Proof. exists 6. split; [lia|]. vm_compute. reflexivity. Qed.
 
 (* ------------------------------------------------------------------------------------------------ lax mode: the work doubles per level *)
 Definition lax_texts (lim copies : nat) (k : rkind) : option N :=
